@@ -7,7 +7,7 @@ from vlib import glist
 
 PID = "C15"
 THEOREMS = ["C15_loading_iff_latest_outstanding", "C15_stale_completion_ignored", "C15_latest_completion_wins",
-            "C15_old_value_readable", "C15_value_is_some_fetch"]
+            "C15_old_value_readable", "C15_value_is_some_fetch", "C15_feedback_is_plain"]
 
 
 def gen(tier, rng):
@@ -51,8 +51,10 @@ def gen(tier, rng):
     return uniq
 
 
-def oracle(steps, lines):
-    """the three statements of the property evaluated on the observed sequence"""
+def oracle(steps, lines, fb=False):
+    """the three statements of the property evaluated on the observed sequence; with [fb] the program under test has an effect
+    that, behind a selector, moves the dependency on to value + 1 whenever the installed value ends in 7 (a dependency change
+    like any other, issued right after the completion)"""
     fails = []
     deps = [0]
     done = set()
@@ -72,15 +74,47 @@ def oracle(steps, lines):
             if k == latest and k not in done:
                 done.add(k)
                 expected_value = deps[k]
-                if val != str(deps[k]) or load != "0":
-                    fails.append({"step": i, "what": "completion of the latest fetch not installed", "value": val, "loading": load, "expected": deps[k]})
+                moved_on = fb and deps[k] % 10 == 7 and prev_val != str(deps[k])
+                if moved_on:
+                    deps.append(deps[k] + 1)          # the feedback effect wrote the dependency: a new fetch is outstanding
+                if val != str(deps[k]) or load != ("1" if moved_on else "0"):
+                    fails.append({"step": i, "what": "completion of the latest fetch not installed" if not moved_on else
+                                  "after the completion moved the dependency on, the value is not the completed one or is_loading is false although the new fetch is outstanding",
+                                  "value": val, "loading": load, "expected": deps[k]})
             else:
                 if val != prev_val:
                     fails.append({"step": i, "what": "an older in-flight fetch overwrote the value", "before": prev_val, "after": val, "fetch": k, "latest": latest})
         latest = len(deps) - 1
         if (load == "1") != (latest not in done):
             fails.append({"step": i, "what": "is_loading is not 'the latest fetch is outstanding'", "loading": load})
+        if started != str(len(deps)):
+            fails.append({"step": i, "what": "number of fetches started differs from the number of dependency values", "started": started, "expected": len(deps)})
     return fails
+
+
+def gen_fb(tier, rng):
+    """histories for the feedback variant: dependency values ending in 7 trigger a follow-up write when they are installed"""
+    cases = []
+    vals = [7, 17, 5, 27, 8]
+    for n in range(1, 4 if tier == "quick" else 5):
+        for ws in itertools.product(vals[:3], repeat=n):
+            steps, started = [], 1
+            for w in ws:
+                steps.append(("write", w))
+                started += 1
+            # complete everything in start order, then in reverse, then the latest only (feedback fetches included: up to 2n+2 ids)
+            for order in (range(0, 2 * n + 3), reversed(range(0, 2 * n + 3)), [n, n + 1, n + 2]):
+                cases.append(steps + [("complete", k) for k in order])
+    for _ in range(150 if tier == "quick" else 2000):
+        steps, started = [], 1
+        for _ in range(rng.randint(3, 12)):
+            if rng.random() < 0.4:
+                steps.append(("write", rng.choice(vals)))
+                started += 2
+            else:
+                steps.append(("complete", rng.randrange(started + 1)))
+        cases.append(steps)
+    return cases
 
 
 def main(argv):
@@ -118,7 +152,37 @@ def main(argv):
     except RuntimeError as e:
         broken.append("model evaluation: " + str(e)[-500:])
         chk.obligation("model evaluation", False, str(e))
+    # the feedback variant
+    fcases = gen_fb(a.tier, rng)
+    ftext = "\n".join("(resource (%s) fb)" % " ".join("(%s %d)" % s for s in c) for c in fcases) + "\n"
+    rc, so, se = vlib.run_driver(binp, ftext, timeout=3000)
+    fblocks = so.rstrip("\n").split("\n==\n")
+    if rc != 0 or len(fblocks) != len(fcases):
+        chk.violation({"property": PID, "broken": "driver run (feedback)", "rc": rc, "stderr": se[-1500:]}, no_input=True)
+        return chk.finish()
+    fimpl = [b.split("\n") for b in fblocks]
+    fmodel = None
+    try:
+        exprs = ["run_resources_fb %s" % glist([glist([("RWrite (%d)%%Z" if s[0] == "write" else "RComplete %d") % s[1] for s in c]) for c in fcases[i:i + 200]])
+                 for i in range(0, len(fcases), 200)]
+        outs = vlib.coq_eval(PID + "f", pre, exprs, per_file=max(1, (len(exprs) + 15) // 16))
+        fmodel = [b.split("\n") for o in outs for b in o.split("\n==\n")]
+    except (RuntimeError, NameError) as e:
+        broken.append("model evaluation (feedback): " + str(e)[-500:])
+        chk.obligation("model evaluation (feedback)", False, str(e))
     mism, orfail = [], []
+    for i, (steps, lines) in enumerate(zip(fcases, fimpl)):
+        chk.note_case("fb" + str(steps), any(st[0] == "write" and st[1] % 10 == 7 for st in steps))
+        if lines[0] == "PANIC":
+            orfail.append({"steps": ["fb"] + steps, "failures": [{"what": "panic"}]})
+            continue
+        fails = oracle(steps, lines, fb=True)
+        if fails:
+            orfail.append({"steps": ["fb"] + steps, "failures": fails[:3], "output": lines})
+        if fmodel is not None and fmodel[i] != lines:
+            mism.append({"steps": ["fb"] + steps, "impl": lines, "model": fmodel[i]})
+    chk.obligation("correspondence and oracle on %d histories with a feedback edge from the value to the dependency" % len(fcases),
+                   fmodel is not None and not mism and not orfail, str((mism + orfail)[:1]))
     for i, (steps, lines) in enumerate(zip(cases, impl)):
         key = str(steps)
         stale = False
